@@ -8,16 +8,21 @@
 
 pub mod src;
 
+/// re-export for the native witness programs (iroh-blobs is not a dependency of /verif/replay)
+pub use iroh_blobs::Hash;
+
 pub use crate::actor::verif_incrate as actor;
 pub use crate::engine::verif_state as engine_state;
 pub use crate::net::verif_codec as net_codec;
 pub use crate::store::fs::verif_incrate as store_fs;
 pub use crate::sync::verif_incrate as sync;
 
+mod dispatch_gen;
+
 /// Run harness body `name` natively on concrete draws.
 pub fn replay(name: &str, vals: Vec<Vec<u8>>) -> Option<src::ReplayOutcome> {
     let mut s = src::ReplaySrc::new(vals);
-    let found = store_fs::dispatch(name, &mut s);
+    let found = dispatch_gen::dispatch(name, &mut s);
     if !found {
         return None;
     }
